@@ -151,7 +151,7 @@ def fifo(ctx, P, views, iters):
             if len(params) < 2 or dest != params[1]:
                 ctx.violation(ob, "R1.fifo", "%s.block_individual" % cls.name, unparse(a), "queue-of-wrong-node",
                               "the blocked customer must be queued at the destination node passed in", loc(a))
-            item = unparse(a.args[0]).replace(" ", "") if a.args else ""
+            item = unparse(rules.inline_locals(fn, a.args[0])).replace(" ", "") if a.args else ""      # (a local naming the entry is read through)
             if item != "(self.id_number,%s.id_number)" % params[0]:
                 ctx.violation(ob, "R1.fifo", "%s.block_individual" % cls.name, unparse(a), "queue-entry",
                               "queue entries must be (blocking node id, customer id): release_blocked_individual looks the customer up by them", loc(a))
